@@ -33,6 +33,7 @@ def c18_1(ctx):
             for p in f.params[2:]:
                 if p not in given and not f.node.args.kwarg and p not in ('kw',):
                     pass
+        init_forwarding(ctx, c)
         has_wrapped = ctx.repo.method(c, 'wrapped') is not None
         own_call = (mod, c, '__call__') in ctx.repo.funcs
         if not has_wrapped and not own_call:
